@@ -105,7 +105,7 @@ def read_interactions(path, comments="#", directed=False, delimiter=None,
     ids = None
     lines = (line.decode(encoding) for line in path)
     if keys:
-        ids = read_ids(path.name, delimiter=delimiter, timestamptype=timestamptype)
+        ids = read_ids(path.name, delimiter=delimiter, timestamptype=timestamptype, comments=comments)
 
     return parse_interactions(lines, comments=comments, directed=directed, delimiter=delimiter, nodetype=nodetype,
                               timestamptype=timestamptype, keys=ids)
@@ -291,17 +291,23 @@ def read_snapshots(path, comments="#", directed=False, delimiter=None,
     ids = None
     lines = (line.decode(encoding) for line in path)
     if keys:
-        ids = read_ids(path.name, delimiter=delimiter, timestamptype=timestamptype)
+        ids = read_ids(path.name, delimiter=delimiter, timestamptype=timestamptype, comments=comments)
 
     return parse_snapshots(lines, comments=comments, directed=directed, delimiter=delimiter, nodetype=nodetype,
                            timestamptype=timestamptype, keys=ids)
 
 
-def read_ids(path, delimiter=None, timestamptype=None):
+def read_ids(path, delimiter=None, timestamptype=None, comments="#"):
     f = open(path)
     ids = {}
     for line in f:
-        s = line.rstrip().split(delimiter)
+        # same filtering as the parsers: comments stripped, rows without a timestamp skipped
+        p = line.find(comments)
+        if p >= 0:
+            line = line[:p]
+        s = line.strip().split(delimiter)
+        if len(s) < 3:
+            continue
         ids[timestamptype(s[-1])] = None
         if len(s) == 4:
             if s[-2] not in ['+', '-']:
